@@ -4,8 +4,9 @@ CONSTANTS MaxCalls = 3
   AllowDestroy = FALSE
   AllowCrash = FALSE
   FixEatKill = TRUE
+  ReapOnRefusal = TRUE
   FixDonePrio = TRUE
 SPECIFICATION SpecLive
-INVARIANTS NoDesync InitAlive OneAnswer PingOk LostCallsFail ExecAnswers NoOrphan
+INVARIANTS NoDesync InitAlive OneAnswer PingOk LostCallsFail ExecAnswers NoOrphan ReapedAtServe
 PROPERTIES AllReturn CancelReturns
 CHECK_DEADLOCK FALSE
